@@ -119,6 +119,15 @@ func init() {
 			}
 			return nil
 		},
+		"vsymLiveGoroutines": func(m *Machine, _ *frame, _ *ssa.Function, a []value) value {
+			n := 0
+			for _, co := range m.sched.cos {
+				if co.id != 0 && !co.done {
+					n++
+				}
+			}
+			return m.tt.Const(64, uint64(n))
+		},
 		"vsymNowNS": func(m *Machine, _ *frame, _ *ssa.Function, a []value) value {
 			return m.tt.Const(64, uint64(m.clock-1_000_000_000))
 		},
